@@ -183,6 +183,15 @@ def stepLine (s : State) (line : String) : State × String :=
           (s2, s!"overlap resa={resName ra} resb={resName rb} file={showRestored s2} live={showCfg s2}")
         | _, _ => (s, "bad-op")
       | _, _ => (s, "bad-op")
+    | "sicken" =>
+      -- the world: these targets stop answering probes (and a probe interval passes)
+      match getL kv "targets" with
+      | some ts => ({ s with sick := s.sick ++ ts.filter fun t => !s.sick.contains t }, "sicken ok")
+      | none => (s, "bad-op")
+    | "heal" =>
+      match getL kv "targets" with
+      | some ts => ({ s with sick := s.sick.filter fun t => !ts.contains t }, "heal ok")
+      | none => (s, "bad-op")
     | "probing" =>
       let ts := s.probing.flatten
       (s, "probing " ++ " ".intercalate (sortStrs (ts.map encB)))
